@@ -34,6 +34,10 @@ class VT:
         self.exc = None
         self.daemon = False
 
+    def owner(self):
+        """The (virtual) OS process this thread of control belongs to."""
+        return 'p%d' % self.id if self.kind == 'process' else 'main'
+
     def observe(self, *items):
         self.nops += 1
         self.hist.update(repr(items).encode())
@@ -69,6 +73,9 @@ class VT:
             if self.sched.aborting:
                 return
             self.target(*self.args)
+            if self.kind == 'process':
+                # a process joins its queue feeder threads before it exits
+                self.sched.op(('flush', self))
         except Abort:
             pass
         except BaseException as e:    # noqa
@@ -79,13 +86,33 @@ class VT:
 
 
 class VQueue:
-    def __init__(self, sched, pickled, name):
+    def __init__(self, sched, pickled, name, feeder=False):
         self.sched, self.pickled, self.name = sched, pickled, name
         self.items = collections.deque()
+        # multiprocessing.Queue.put() only appends to a buffer local to the putting process; a feeder thread of that
+        # process moves the items into the pipe later (FIFO per process, no order between processes)
+        self.feeder = feeder
+        self.buffers = {}
+        self.feeders = {}
 
     def put(self, item, block=True, timeout=None):
+        if self.feeder:
+            self.sched.op(('put-local', self))
+            owner = self.sched.current.owner()
+            self.buffers.setdefault(owner, collections.deque()).append(pickle.dumps(item))
+            if owner not in self.feeders:
+                vt = VT(self.sched, self._feed, (owner,), 'feeder', 'feeder:%s:%s' % (self.name, owner))
+                vt.daemon = True
+                self.feeders[owner] = vt
+                self.sched.register(vt)
+            return
         self.sched.op(('put', self))
         self.items.append(pickle.dumps(item) if self.pickled else item)
+
+    def _feed(self, owner):
+        while True:
+            self.sched.op(('feed', self, owner))
+            self.items.append(self.buffers[owner].popleft())
 
     def get(self, block=True, timeout=None):
         if timeout is not None or not block:
@@ -102,10 +129,14 @@ class VQueue:
         return v
 
     def snapshot(self):
-        return tuple(x if self.pickled else pickle.dumps(x) for x in self.items)
+        return (tuple(x if self.pickled else pickle.dumps(x) for x in self.items),
+                tuple(sorted((str(o), tuple(b)) for o, b in self.buffers.items() if b)))
 
     def peek_rows(self):
-        return [pickle.loads(x) if self.pickled else x for x in self.items]
+        out = [pickle.loads(x) if self.pickled else x for x in self.items]
+        for b in self.buffers.values():
+            out.extend(pickle.loads(x) for x in b)
+        return out
 
     def empty(self):
         return not self.items
@@ -176,7 +207,7 @@ class Sched:
             @staticmethod
             def Queue(maxsize=0):
                 s.nqueues += 1
-                q = VQueue(s, True, 'mpq%d' % s.nqueues)
+                q = VQueue(s, True, 'mpq%d' % s.nqueues, feeder=s.model_feeder)
                 s.queues.append(q)
                 return q
         return M
@@ -231,6 +262,11 @@ class Sched:
         k = op[0]
         if k == 'get':
             return len(op[1].items) > 0
+        if k == 'feed':
+            return len(op[1].buffers.get(op[2], ())) > 0
+        if k == 'flush':
+            own = op[1].owner()
+            return not any(q.buffers.get(own) for q in self.queues)
         if k == 'get-timed':
             if len(op[1].items) > 0:
                 return True
@@ -269,9 +305,9 @@ class Sched:
     def choose(self, me):
         """Pick the next thread to run among those whose pending op is enabled."""
         live = [t for t in self.threads if t.started and not t.finished and t.pending is not None]
-        if not live and all(t.finished or not t.started for t in self.threads):
-            return None, False
         en = [t for t in live if self.enabled(t)]
+        if not en and all(t.finished or not t.started or t.daemon for t in self.threads):
+            return None, False          # only idle feeder threads are left: the execution is complete
         running_enabled = me is not None and me in en
         # canonical order: running thread first, then ascending ids
         en.sort(key=lambda t: (0 if t is me else 1, t.id))
@@ -284,7 +320,7 @@ class Sched:
                 self.timeouts_fired += 1
                 t.pending = ('timeout', t.pending[1], None)
                 return t, True
-            self.deadlock = [(t.name, t.pending[0], getattr(t.pending[1], 'name', None)) for t in live]
+            self.deadlock = [(t.name, t.pending[0], getattr(t.pending[1], 'name', None)) for t in live if not t.daemon]
             self.abort()
             raise Abort()
         idx = 0
@@ -332,6 +368,7 @@ class Sched:
 
     pruned = False
     divergence = None
+    model_feeder = False
 
     def state_key(self, me_running=None):
         """Canonical state: queue contents + per-thread (kind, history, pending op) with workers sorted."""
